@@ -39,18 +39,34 @@ def run_workers(prop: str, tier: str, seed: int, n_cases: int, jobs: int, budget
     for k in range(jobs):
         out = os.path.join(outdir, f"w{k}.json")
         cmd = [env.PYTHON, "-m", "vlib.worker", prop, tier, str(seed), str(k), str(jobs), str(n_cases), out, str(budget_s)]
-        p = subprocess.Popen(cmd, cwd=env.VERIF_DIR, env=envv, stdout=subprocess.PIPE, stderr=subprocess.PIPE, text=True)
-        procs.append((k, p, out))
+        # pyhms logs to stdout at the verbose log levels some cases use: never let a worker block on a full pipe
+        errf = open(os.path.join(outdir, f"w{k}.err"), "w+")
+        p = subprocess.Popen(cmd, cwd=env.VERIF_DIR, env=envv, stdout=subprocess.DEVNULL, stderr=errf, text=True)
+        procs.append((k, p, out, errf))
     results = []
     deadline = time.time() + budget_s * 3 + 120
-    for k, p, out in procs:
+    for k, p, out, errf in procs:
+        def _err():
+            try:
+                errf.seek(0)
+                txt = errf.read()
+            except Exception:
+                txt = ""
+            errf.close()
+            try:
+                os.unlink(errf.name)
+            except OSError:
+                pass
+            return txt
+
         try:
-            so, se = p.communicate(timeout=max(1.0, deadline - time.time()))
+            p.wait(timeout=max(1.0, deadline - time.time()))
         except subprocess.TimeoutExpired:
             p.kill()
-            so, se = p.communicate()
-            results.append({"worker": k, "error": "worker wall-clock watchdog", "stderr": se[-2000:]})
+            p.wait()
+            results.append({"worker": k, "error": "worker wall-clock watchdog", "stderr": _err()[-2000:]})
             continue
+        se = _err()
         if p.returncode != 0 or not os.path.exists(out):
             results.append({"worker": k, "error": f"worker exit {p.returncode}", "stderr": se[-4000:]})
             continue
